@@ -481,6 +481,56 @@ fn leak_case(ctx: &Ctx, idx: u64, rng: &mut Rng) {
     ctx.eval(crate::prng::mix(&[idx, 0x1EAC]), true);
 }
 
+/// Extreme but legal configuration values: sizes and limits near usize::MAX. Allocating that much
+/// is impossible, so a deliberate "unable to allocate" / layout panic is fine; what must never
+/// happen is an *arithmetic overflow* on the way (or a wrapped size reaching the allocator).
+fn extreme_config_case(ctx: &Ctx, idx: u64, rng: &mut Rng) {
+    let thresholds = [usize::MAX, usize::MAX - 1, usize::MAX - 7, usize::MAX - 14, usize::MAX - 15, usize::MAX - 16, usize::MAX / 2 + 1, isize::MAX as usize, isize::MAX as usize - 15, 1usize << 62];
+    let t = thresholds[idx as usize % thresholds.len()];
+    let allow_realloc = (idx / thresholds.len() as u64) % 2 == 0;
+    let max_nb_chunks = *rng.pick(&[0usize, 1, 25, usize::MAX, usize::MAX / 2]);
+    let block_size = *rng.pick(&[0usize, 8192, usize::MAX, usize::MAX - 1]);
+    let describe = format!("dump_threshold({:#x}) allow_realloc({}) max_nb_chunks({:#x}) block_size({:#x})", t, allow_realloc, max_nb_chunks, block_size);
+    let r = guarded(|| -> Result<usize, String> {
+        let mut b = grenad::SorterBuilder::new(MonMerge::with_plan(MergeKind::Last, None)).chunk_creator(CursorVec);
+        b.dump_threshold(t);
+        b.allow_realloc(allow_realloc);
+        b.max_nb_chunks(max_nb_chunks);
+        b.block_size(block_size);
+        let mut sorter = b.build();
+        for i in 0..50u32 {
+            sorter.insert(i.to_be_bytes(), [i as u8; 7]).map_err(|e| e.to_string())?;
+        }
+        let mut it = sorter.into_stream_merger_iter().map_err(|e| e.to_string())?;
+        let mut n = 0;
+        while let Some(_) = it.next().map_err(|e| e.to_string())? {
+            n += 1;
+        }
+        Ok(n)
+    });
+    ctx.count("extreme_configuration_scenarios", 1);
+    let detail = |what: &str, obs: String| J::obj().set("part", "extreme configuration values").set("configuration", describe.as_str()).set("what", what).set("observed", obs);
+    match r {
+        Ok(Ok(n)) => {
+            ctx.count("extreme_configurations_that_work", 1);
+            if n != 50 {
+                ctx.violation("sorter-output-corrupted:keys", "extreme-config", idx, detail("sorter with an extreme configuration lost entries", format!("{} of 50", n)));
+            }
+        }
+        Ok(Err(e)) => ctx.violation("sorter-failed", "extreme-config", idx, detail("sorter reported an error with working components", e)),
+        Err(p) => {
+            if p.contains("overflow") && !p.contains("capacity overflow") {
+                ctx.violation("arithmetic-overflow", "extreme-config", idx, detail("an arithmetic overflow on sizes (overflow-checked build)", p));
+            } else {
+                // impossible allocation refused deliberately
+                ctx.count("extreme_configurations_refused_by_a_deliberate_panic", 1);
+                ctx.tag("deliberate_refusals", &p.chars().take(70).collect::<String>());
+            }
+        }
+    }
+    ctx.eval(crate::prng::mix(&[idx, 0xE87]), true);
+}
+
 pub fn run(ctx: &Ctx, part: &str) -> i32 {
     let small = part == "miri" || cfg!(miri);
     let heavy = part == "sanitizer"; // asan / tsan / valgrind: medium sizes
@@ -497,6 +547,7 @@ pub fn run(ctx: &Ctx, part: &str) -> i32 {
     if !small {
         let n = if heavy { 2 } else { ctx.tier.pick(4, 24) };
         ctx.par("real-size", n, true, |idx, rng| real_size_case(ctx, idx, rng));
+        ctx.par("extreme-config", 40, false, |idx, rng| extreme_config_case(ctx, idx, rng));
     }
     let mut extra = J::obj();
     #[cfg(feature = "guard-alloc")]
